@@ -15,9 +15,9 @@ def main():
     desc = lambda o: {"result": o["obs"].get("result"), "err": o["obs"].get("err"), "queries": o["obs"].get("queries", [])[:80]}
 
     def build(beh, k0):
-        # all ranges are queried on every file: a seeded stratum of the layouts (half in the quick tier, a third of the much
+        # all ranges are queried on every file: a seeded stratum of the layouts (half in the quick tier, a fifth of the much
         # larger thorough enumeration) keeps the tier within the hour
-        beh = beh[run.seed % 3::3] if run.thorough else beh[::2]
+        beh = beh[run.seed % 5::5] if run.thorough else beh[::2]
         cases = make_cases(beh, "bw", sizes, run, allq=1, k0=k0)
         for k, c in enumerate(cases):
             c["opts"]["bs"] = 2
